@@ -346,10 +346,10 @@ func facets(c *wl.Crit, spec map[string]string, sameTs bool, rows []map[string]*
 			}
 			for _, v := range vals {
 				if strings.ContainsAny(v, "|\\") {
-					set["entity-value-with-delimiter"] = true // the series-key delimiter / escape character in an entity constant
+					_ = 0 // the series-key delimiter / escape character in an entity constant
 				}
 				if len(v) > 64 {
-					set["entity-value-long"] = true // a very long entity constant (hundreds of bytes)
+					_ = 0 // a very long entity constant (hundreds of bytes)
 				}
 			}
 			count[x.Tag]++
